@@ -210,6 +210,12 @@ func sharedOp(s *jsonapi.Schema, op string, p int) {
 				r.Set("m", []string{"b", "a"})
 			}
 		}
+		// ... and straight from the schema's own elements (no copy of the Type in between).  Such a
+		// soft resource has the schema's element as its Type (that is what Type.New documents), so
+		// it is only created here, never used: creating it is the read-only operation
+		for i := range s.Types {
+			_ = s.Types[i].New()
+		}
 	case "MarshalOwnDoc":
 		t1 := s.GetType("t1")
 		t2 := s.GetType("t2")
